@@ -7,8 +7,6 @@ from harness.lib import sx as SX
 from harness.props import llp_common as L
 
 ID = "C03"
-DISABLED = "work in progress (C03 builder): harness and theorems are being written"
-SETUP_SKIP = True
 COQ_DIR = "C03"
 EXTRA_COQ_DIRS = ["LLP"]
 RUN_MOD = "C03.Run"
@@ -17,7 +15,7 @@ PROOF_TARGETS = ["C03/LemmasRC.vo", "C03/LemmasParse.vo", "C03/LemmasTerm.vo", "
 PROPS = ["C03/Props.v"]
 ALLOWED_AXIOMS = []
 IMPL_TIMEOUT = 60.0        # whole case (a batch of up to SWEEP_CHUNK grammars); constructor and parses have their own budgets
-CTOR_BUDGET = 5.0          # seconds for one constructor call (normal: < 5 ms)
+CTOR_BUDGET = 2.0          # seconds for one constructor call (normal: < 5 ms)
 PARSE_BUDGET = 0.4         # seconds for one parse of a <= 3 token input of a swept grammar (normal: < 1 ms)
 PARSE_BUDGET_FULL = 1.0    # seconds for one parse of a random larger grammar (normal: < 10 ms)
 CONFIRM_BUDGET = 1.5       # a parse that blew its budget is run once more with this budget before it counts as Hang
@@ -45,8 +43,8 @@ TRUSTED_BASE = [
     "GrammarError checks of _verify_grammar_structure_part1 (unknown symbols, terminals with productions, $END$/$START$ "
     "used by the user) are outside the model; the theorems assume their outcome as hypotheses (every production symbol "
     "is a terminal or has productions, terminals have none); generated grammars never trigger them",
-    "a parse that does not return within the wall budget (0.5 s / 2 s, confirmed once with 3 s) is taken for a hang; "
-    "normal parses of the generated inputs take < 10 ms",
+    "a parse that does not return within the wall budget (0.4 s for the swept grammars / 1 s for the larger ones, confirmed "
+    "once with 1.5 s; constructor: 2 s) is taken for a hang; normal parses of the generated inputs take < 10 ms",
 ]
 ASSUMPTIONS = ["grammars use plain productions (templates are C05's subject)"]
 MODELLED = ("ak/llparser.py: LLParser._verify_grammar_structure_part2 (lines 1876-1950) as LLP/RecCheck.v; the main loop of "
@@ -273,6 +271,10 @@ def _prods_dict(prods):
     return {nt: [list(a) for a in alts] for nt, alts in prods}
 
 
+def _has_duplicates(prods):
+    return any(len(set(map(tuple, alts))) != len(alts) for _nt, alts in prods)
+
+
 def ref_hidden_only(prods):
     """left-recursive, but not through first symbols alone: every cycle needs a nullable prefix"""
     if not L.ref_left_recursive(prods):
@@ -319,8 +321,8 @@ def _ctor(llparser, terms, prods, start, smart):
         finally:
             signal.setitimer(signal.ITIMER_REAL, 0)
     except BaseException as e:  # noqa
-        if _is_hang(e):
-            raise
+        if _is_hang(e) or isinstance(e, MemoryError):
+            return None, "Hang"
         return None, SX.exc_name(e)
 
 
@@ -328,13 +330,17 @@ def impl_run(case):
     from ak import llparser
     if case["k"] == "sweep":
         cls = CLASSES[case["cls"]]
-        out, ref, hangs, n_parsed, n_trees = [], [], [], 0, 0
+        out, ref, hangs, n_parsed, n_trees, ctor_hangs = [], [], [], 0, 0, 0
         for idx in _chunk_indices(case):
             prods, start, smart = cls.grammar(idx)
             ref.append("1" if L.ref_left_recursive(_prods_dict(prods)) else "0")
+            if ctor_hangs >= MAX_HANGS:
+                out.append("?")          # not run: the constructor hung MAX_HANGS times in this chunk already
+                continue
             p, err = _ctor(llparser, cls.terms, prods, start, smart)
             if p is None:
-                out.append("R" if err == "GrammarIsRecursive" else "E")
+                out.append("R" if err == "GrammarIsRecursive" else "H" if err == "Hang" else "E")
+                ctor_hangs += err == "Hang"
                 continue
             out.append(".")
             if len(hangs) >= MAX_HANGS:
@@ -389,10 +395,14 @@ def coq_case(case, obs):
     return L.coq_case(case, obs)
 
 
-_OUT_CODE = {".": 0, "R": SX.ERR_CODES["GrammarIsRecursive"], "E": SX.ERR_OTHER}
+_OUT_CODE = {".": 0, "R": SX.ERR_CODES["GrammarIsRecursive"], "E": SX.ERR_OTHER, "H": SX.ERR_CODES["Hang"], "?": 98}
 
 
 def expected_sx(case, obs):
+    if "__hang__" in obs:        # the worker died / the whole case blew IMPL_TIMEOUT
+        if case["k"] == "sweep":
+            return SX.dumps([SX.ERR_CODES["Hang"] for _ in _model_sample(case)])
+        return SX.dumps(SX.err("Hang") + [True])
     if case["k"] == "sweep":
         return SX.dumps([_OUT_CODE[obs["out"][pos]] for pos in _model_sample(case)])
     # the third field is the model's evaluation of the theorems' hypotheses (part1_okb) on the factorized
@@ -431,15 +441,19 @@ def oracle(case, obs):
         want = ref.replace("1", "R").replace("0", ".")
         if want != o:
             for pos, (w, got) in enumerate(zip(want, o)):
-                if w != got:
+                if w != got and got != "?":
                     prods, start, smart = cls.grammar(idxs[pos])
                     desc = f"class {cls.name} index {idxs[pos]}: productions {prods} start {start} smart={smart}"
                     if w == "R" and got == ".":
                         out.append(("leftrec-accepted", desc + ": left-recursive, but the constructor accepted it"))
                     elif w == "." and got == "R":
                         out.append(("spurious-recursive", desc + ": not left-recursive, but GrammarIsRecursive was raised"))
-                    # 'E' (another constructor error, e.g. the factorization's assertion on duplicated
-                    # alternatives) is outside the statement; the correspondence compares the error class
+                    elif got == "H":
+                        out.append(("ctor-hang", desc + ": the constructor did not return"))
+                    elif w == "R":
+                        # the swept classes have no duplicated alternatives, nothing else makes the constructor fail
+                        out.append(("leftrec-other-error", desc + ": left-recursive, but the constructor raised "
+                                                                  "another error than GrammarIsRecursive"))
                     if len(out) >= 3:
                         break
         for h in obs["hangs"]:
@@ -469,8 +483,12 @@ def oracle(case, obs):
                 STATS["full_hidden"] += 1
         if obs["ctor"][1] == "GrammarIsRecursive" and not rec:
             out.append(("spurious-recursive", desc + ": not left-recursive, but GrammarIsRecursive was raised"))
-        # another constructor error (the factorization asserts on duplicated alternatives) is outside the
-        # statement; the correspondence compares the error class
+        elif obs["ctor"][1] == "Hang":
+            out.append(("ctor-hang", desc + ": the constructor did not return"))
+        elif obs["ctor"][1] != "GrammarIsRecursive" and rec and not _has_duplicates(g["prods"]):
+            # (a grammar with a duplicated alternative is rejected by an assertion of the factorization before
+            # the recursion check runs; that is outside the statement)
+            out.append(("leftrec-other-error", desc + f": left-recursive, but the constructor raised {obs['ctor'][1]}"))
     return out[:3]
 
 
@@ -530,9 +548,27 @@ def shrink_candidates(case):
                 yield {"k": "full", "g": g2, "inputs": case["inputs"]}
 
 
-TECHNIQUE = ("Coq proof (DFS invariant + potential function for the explicit-stack recursion check; stack invariant and "
-             "a base-B measure for the parse loop) over hand-written Gallina models + per-run correspondence (vm_compute "
-             "vs implementation) + exhaustive small-grammar sweep against an independent cycle detection")
-LEVEL_TEXT = "in progress"
-LEVEL_NOTE = "in progress"
+TECHNIQUE = ("Coq proof (DFS invariant + potential function for the explicit-stack recursion check; stack invariant, spine "
+             "bound and a base-B numeral measure for the parse loop) over hand-written Gallina models + per-run "
+             "correspondence (vm_compute vs implementation) + exhaustive small-grammar sweep against an independent "
+             "cycle detection")
+LEVEL_TEXT = ("Full on the models, relative to the factorized grammar fg. First sentence: reccheck_sound, reccheck_complete, "
+              "reccheck_total, reccheck_exact are proved for EVERY visiting order (the order is a universally quantified "
+              "list that contains the keys, so every assignment of names) and every exact nullable list; nullables_exact "
+              "proves the model of _get_nullables exact; rec_check_exact / build_exact: the constructor raises "
+              "GrammarIsRecursive iff fg is left-recursive (inductive definition: a cycle of A |> B, A -> pre B post with "
+              "pre nullable) and returns a parser iff it is not; the step budget of the model's loop is proved sufficient. "
+              "Second sentence: spine_bound (stack elements starting at the same token position form a |> path, at most "
+              "#keys+1 of them), stack_depth_bound, parse_terminates (explicit bound: 2^k iterations with k <= B^(D+1)), "
+              "accepted_parse_terminates (build = Ok p -> every input: no Hang). NOT proved, tested only: that fg is "
+              "left-recursive iff the user's grammar is (the oracle decides left recursion on the USER's productions with "
+              "an independent algorithm; thorough tier: all 37.4 million grammars of the two swept classes, i.e. every "
+              "shape under every name permutation; quick: 130 000 sampled + 650 random larger grammars with hidden "
+              "cycles); the hypotheses part1_ok (outcome of _verify_grammar_structure_part1, outside the model) are "
+              "evaluated by the model on every generated grammar; template productions are outside the model.")
+LEVEL_NOTE = ("Trusted: Coq kernel + vm_compute; fidelity of the hand-written models LLP/RecCheck.v, Table.v:nullables, "
+              "Parse.v, Build.v (checked on every run by the correspondence: constructor outcome of every case, "
+              "is_ambiguous, parse trees / error classes / Hang of the random cases); part1 checks and tokenizer outside "
+              "the model; a wall budget (0.4 s / 1 s, confirmed with 1.5 s; constructor 2 s) stands for 'does not "
+              "return' on the implementation side.  Print Assumptions: closed under the global context for every theorem.")
 DESIGN_REF = "DESIGN.md section 8, C03"
